@@ -105,9 +105,12 @@ def run_verus(genfile, seed=0, threads=16, use_cache=True):
     fcntl.flock(lock, fcntl.LOCK_EX)
     try:
         if use_cache and os.path.exists(cpath):
-            r = json.load(open(cpath))
-            r['cached'] = True
-            return r
+            try:
+                r = json.load(open(cpath))
+                r['cached'] = True
+                return r
+            except Exception:
+                pass        # removed or half-written by a concurrent run: treat as a miss
         cmd, rc, out, err, wall = _run(genfile, seed, threads)
         try:
             js = json.loads(out) if out.strip() else None
@@ -127,9 +130,21 @@ def run_verus(genfile, seed=0, threads=16, use_cache=True):
         json.dump(r, open(tmp, 'w'))
         os.replace(tmp, cpath)
         # keep the cache small
-        ents = sorted((os.path.getmtime(os.path.join(CACHE, f)), f) for f in os.listdir(CACHE) if f.endswith('.json'))
-        for _, f in ents[:-40]:
-            os.remove(os.path.join(CACHE, f))
+        try:
+            ents = []
+            for f in os.listdir(CACHE):
+                if f.endswith('.json'):
+                    try:
+                        ents.append((os.path.getmtime(os.path.join(CACHE, f)), f))
+                    except OSError:
+                        pass
+            for _, f in sorted(ents)[:-400]:
+                try:
+                    os.remove(os.path.join(CACHE, f))
+                except OSError:
+                    pass
+        except OSError:
+            pass
         return r
     finally:
         fcntl.flock(lock, fcntl.LOCK_UN)
